@@ -125,3 +125,10 @@ def run(ctx):
                 callers.append(k)
     ctx.note("callers of play_unchecked in the library: %s" % sorted(set(callers)))
     ctx.check(B + "::try_play" in callers, "unchecked-reached-from-try_play", "try_play no longer reaches play_unchecked")
+    # "succeeds exactly when the move is legal": the guard's own meaning (C04 owns these rules)
+    from . import c04
+    from .. import lift
+    L = lift.Lifter(f)
+    ctx.rule("guard-meaning.is_legal")
+    c04.check_is_legal(ctx, f, L)
+    c04.check_king_is_legal(ctx, f, L)
